@@ -303,6 +303,10 @@ def run(ck):
         if not any(w): w = tuple(1 for _ in range(b.dim))
         if rng.random() < 0.4: w = tuple(1 for _ in range(b.dim))
         afm.append(latt.afm_supercell(b, w)); nafm -= 1
+    # non-collinear vector-spin textures related by 3-, 4-, 6-fold rotations (kagome 120-degree both chiralities, square vortices,
+    # pyrochlore all-in-all-out ...): the rotated spin cartrot.s_i must be (a phase times) the spin of the image atom
+    tex = latt.texture_specs()
+    afm += tex
     afmlabels = {a.label for a in afm}
     specs += afm
     for spec in specs:
